@@ -25,6 +25,7 @@ EXPLANATION = (
     " (ISOLATION table-taken-out) no module's table is out of Resolver.namespaces while tables are read (a file may import from itself); (PATH-FORMS root) the source root is the main file's parent(), the operation relative imports apply, so rooted and relative imports spell one PathBuf; (PATH-FORMS path) the segments of a path are joined by `/` - two names are not one name."
     ' (ISOLATION ty_assignable) a qualified type `ns.Type` is looked up in the table of `ns` only; (INFERENCE - shared) splitting moves globals behind others in checking order, which must not matter.'
     ' (VISIT-resolve, shared with C09) every part of a qualified form is resolved - the qualifier is handed on, not dropped.'
+    ' (FILE-ID) module ids are unique; (VISIT-ALL, shared) every global of every loaded file is ordered, checked and initialised.'
 )
 UNDECIDED = ("behavioural equivalence of a program and its partitions; re-exports resolve only if the exporting module was processed "
              "earlier (single pass in visit order) - reported as information.")
